@@ -30,22 +30,50 @@ def seekAll (p : Player) : List (Nat × Nat) → R Player
 def FadesShort (prog : Bytes) : Prop :=
   ∀ k, liveUpTo prog (k + 1) → (chain prog k).exec.trActive = true → (chain prog k).exec.trDuration ≤ 16777216
 
-/-- **every player reachable by seeks sits on the fresh player's wake-up chain** (up to the fields nobody reads),
-or past the end of the program with the final colour and pyro mask -/
-theorem reachable_inv (prog : Bytes) (short : FadesShort prog) :
-    ∀ (hist : List (Nat × Nat)) (p q : Player), Inv prog p → seekAll p hist = .ok q → Inv prog q := by
+/-- the same, asked only of the chain points that start by the horizon `H` -/
+def FadesShortUpTo (prog : Bytes) (H : Nat) : Prop :=
+  ∀ k, liveUpTo prog (k + 1) → (chain prog k).current ≤ H → (chain prog k).exec.trActive = true →
+    (chain prog k).exec.trDuration ≤ 16777216
+
+theorem FadesShort.upTo {prog : Bytes} (h : FadesShort prog) (H : Nat) : FadesShortUpTo prog H :=
+  fun k hl _ ha => h k hl ha
+
+/-- the largest timestamp of a history -/
+def histMax (hist : List (Nat × Nat)) : Nat := hist.foldr (fun x m => max x.1 m) 0
+
+theorem le_histMax (hist : List (Nat × Nat)) : ∀ x ∈ hist, x.1 ≤ histMax hist := by
+  induction hist with
+  | nil => intro x hx; cases hx
+  | cons y ys ih =>
+    intro x hx
+    unfold histMax
+    simp only [List.foldr_cons]
+    rcases List.mem_cons.mp hx with rfl | h
+    · exact Nat.le_max_left _ _
+    · exact le_trans (ih x h) (Nat.le_max_right _ _)
+
+/-- the invariant along a history whose timestamps stay below a horizon `H`; the fade hypothesis is needed up to `H` only -/
+theorem reachable_inv_upTo (prog : Bytes) (H : Nat) (short : FadesShortUpTo prog H) :
+    ∀ (hist : List (Nat × Nat)) (p q : Player), (∀ x ∈ hist, x.1 ≤ H) → Inv prog p → seekAll p hist = .ok q → Inv prog q := by
   intro hist
   induction hist with
-  | nil => intro p q hp h; cases h; exact hp
+  | nil => intro p q _ hp h; cases h; exact hp
   | cons hd rest ih =>
-    intro p q hp h
+    intro p q hH hp h
     obtain ⟨t, fuel⟩ := hd
     unfold seekAll at h
     cases hs : p.seek t fuel with
     | error e => rw [hs] at h; cases h
     | ok p' =>
       rw [hs] at h
-      exact ih p' q (seek_inv prog short p p' t fuel hp hs).1 h
+      exact ih p' q (fun x hx => hH x (List.mem_cons_of_mem _ hx))
+        (seek_inv prog H short p p' t fuel (hH (t, fuel) List.mem_cons_self) hp hs).1 h
+
+/-- **every player reachable by seeks sits on the fresh player's wake-up chain** (up to the fields nobody reads),
+or past the end of the program with the final colour and pyro mask -/
+theorem reachable_inv (prog : Bytes) (short : FadesShort prog) :
+    ∀ (hist : List (Nat × Nat)) (p q : Player), Inv prog p → seekAll p hist = .ok q → Inv prog q :=
+  fun hist p q hp h => reachable_inv_upTo prog (histMax hist) (short.upTo _) hist p q (le_histMax hist) hp h
 
 /-- **C09**: answers after any history equal the fresh player's answers -/
 theorem answers_history_free (prog : Bytes) (short : FadesShort prog) (hist : List (Nat × Nat)) (t f1 f2 : Nat)
@@ -56,9 +84,9 @@ theorem answers_history_free (prog : Bytes) (short : FadesShort prog) (hist : Li
     (hni : NotInstant prog t) :
     r.exec.color = r0.exec.color ∧ r.pyroChannels = r0.pyroChannels ∧ r.exec.ended = r0.exec.ended := by
   have ip := reachable_inv prog short hist _ _ (inv_fresh prog) hp
-  obtain ⟨ir, cr⟩ := seek_inv prog short p r t f1 ip hr
-  obtain ⟨ir0, cr0⟩ := seek_inv prog short _ r0 t f2 (inv_fresh prog) hr0
-  have := inv_unique prog r r0 t ir ir0 cr cr0 hni
+  obtain ⟨ir, cr⟩ := seek_inv prog t (short.upTo t) p r t f1 (Nat.le_refl t) ip hr
+  obtain ⟨ir0, cr0⟩ := seek_inv prog t (short.upTo t) _ r0 t f2 (Nat.le_refl t) (inv_fresh prog) hr0
+  have := inv_unique prog t r r0 t (Nat.le_refl t) ir ir0 cr cr0 (hni.upTo t)
   unfold obs3 at this
   simp only [Prod.mk.injEq] at this
   refine ⟨this.1, ?_, this.2.2⟩
@@ -77,11 +105,11 @@ theorem answers_up_to_latitude (prog : Bytes) (short : FadesShort prog) (hist : 
     ∃ k0 k, k0 ≤ k ∧ obs3 r0.exec = view prog k0 t ∧ obs3 r.exec = view prog k t ∧
       ∀ j, k0 ≤ j → j < k → (chain prog j).next = t ∧ (chain prog j).exec.ended = false := by
   have ip := reachable_inv prog short hist _ _ (inv_fresh prog) hp
-  obtain ⟨ir, _⟩ := seek_inv prog short p r t f1 ip hr
+  obtain ⟨ir, _⟩ := seek_inv prog t (short.upTo t) p r t f1 (Nat.le_refl t) ip hr
   obtain ⟨rr, rc⟩ := seek_reset p r t f1 hr
   obtain ⟨_, rc0⟩ := seek_reset _ r0 t f2 hr0
   obtain ⟨k, hk⟩ := at_of_inv prog r ir rr
-  obtain ⟨k0, hk0, hmin⟩ := fresh_least prog short t f2 r0 hr0
+  obtain ⟨k0, hk0, hmin⟩ := fresh_least prog t (short.upTo t) t f2 (Nat.le_refl t) r0 hr0
   have hle := hmin r k hk rc
   refine ⟨k0, k, hle, ?_, ?_, at_between prog r0 r t k0 k hk0 hk rc0 rc hle⟩
   · rw [hk0.obs, rc0]
@@ -97,8 +125,8 @@ theorem answers_latitude_two_histories (prog : Bytes) (short : FadesShort prog) 
       ∀ j, min k1 k2 ≤ j → j < max k1 k2 → (chain prog j).next = t ∧ (chain prog j).exec.ended = false := by
   have i1 := reachable_inv prog short h1 _ _ (inv_fresh prog) hp1
   have i2 := reachable_inv prog short h2 _ _ (inv_fresh prog) hp2
-  obtain ⟨ir1, _⟩ := seek_inv prog short p1 r1 t f1 i1 hr1
-  obtain ⟨ir2, _⟩ := seek_inv prog short p2 r2 t f2 i2 hr2
+  obtain ⟨ir1, _⟩ := seek_inv prog t (short.upTo t) p1 r1 t f1 (Nat.le_refl t) i1 hr1
+  obtain ⟨ir2, _⟩ := seek_inv prog t (short.upTo t) p2 r2 t f2 (Nat.le_refl t) i2 hr2
   obtain ⟨rr1, rc1⟩ := seek_reset p1 r1 t f1 hr1
   obtain ⟨rr2, rc2⟩ := seek_reset p2 r2 t f2 hr2
   obtain ⟨k1, a1⟩ := at_of_inv prog r1 ir1 rr1
@@ -121,9 +149,9 @@ theorem budget_irrelevant (prog : Bytes) (short : FadesShort prog) (hist : List 
     (hni : NotInstant prog t) :
     r.exec.color = r'.exec.color ∧ r.exec.pyro = r'.exec.pyro ∧ r.exec.ended = r'.exec.ended := by
   have ip := reachable_inv prog short hist _ _ (inv_fresh prog) hp
-  obtain ⟨ir, cr⟩ := seek_inv prog short p r t f1 ip hr
-  obtain ⟨ir', cr'⟩ := seek_inv prog short p r' t f2 ip hr'
-  have := inv_unique prog r r' t ir ir' cr cr' hni
+  obtain ⟨ir, cr⟩ := seek_inv prog t (short.upTo t) p r t f1 (Nat.le_refl t) ip hr
+  obtain ⟨ir', cr'⟩ := seek_inv prog t (short.upTo t) p r' t f2 (Nat.le_refl t) ip hr'
+  have := inv_unique prog t r r' t (Nat.le_refl t) ir ir' cr cr' (hni.upTo t)
   unfold obs3 at this
   simpa only [Prod.mk.injEq] using this
 
@@ -133,7 +161,7 @@ theorem next_event_sound (prog : Bytes) (short : FadesShort prog) (hist : List (
     (hp : seekAll (Player.fresh prog) hist = .ok p) (hr : p.seek t f = .ok r) (hrun : r.exec.ended = false) :
     t ≤ r.next ∧ ∀ j, liveUpTo prog j → ¬ (t < (chain prog j).next ∧ (chain prog j).next < r.next) := by
   have ip := reachable_inv prog short hist _ _ (inv_fresh prog) hp
-  obtain ⟨ir, cr⟩ := seek_inv prog short p r t f ip hr
+  obtain ⟨ir, cr⟩ := seek_inv prog t (short.upTo t) p r t f (Nat.le_refl t) ip hr
   rcases ir with ⟨hc, hn, hrs⟩ | ⟨k, hk, hl, hs, hn, hc1, hc2, _, _⟩ | ⟨m, _, _, _, hd, _⟩
   · -- a seek always makes at least one step: the initial state is not a seek result
     exfalso
